@@ -14,7 +14,7 @@ radices, `SlowFacts`. Here `SyntaxFacts` is **proved** from `Props.C05Number` (t
 namespace LexVerif.Props.C05Syntax
 open LexVerif LexVerif.Spec LexVerif.Model LexVerif.Model.ParseFloatAlgo
 open LexVerif.Proof.Slow LexVerif.Proof.Pipeline LexVerif.Proof.RoundNE LexVerif.Proof.Bell
-open LexVerif.Props.C01Main LexVerif.Props.C01SlowDomain LexVerif.Props.C05 LexVerif.Props.C05Final
+open LexVerif.Props.C01Main LexVerif.Props.C01SlowMain LexVerif.Props.C01SlowDomain LexVerif.Props.C05 LexVerif.Props.C05Final
 open LexVerif.Props.C01 (IsLemireFloat IsI64)
 
 /-! ## the value of all the digits is a true value of the truncated word, any radix -/
@@ -333,5 +333,15 @@ example (s : List Nat) (h256 : ∀ x ∈ s, x < 256) (hlen : s.length < 2 ^ 60)
 
 example : GenericClass ⟨{ powerOfTwo := true, radix := true }, ⟨0x0303030000000000000000000000000c⟩, false⟩ :=
   ⟨rfl, by decide, by decide⟩
+
+/-- the pipeline on 46-digit radix-3 literals around the half-way point `2^53 + 1` (truncated mantissa, Bellerophon cannot
+decide, `byte_comp` does): just above rounds up, exactly half-way and just below round to even -/
+example :
+    parseFloatAlgoModel slowModel { powerOfTwo := true, radix := true } ⟨0x0303030000000000000000000000000c⟩ {} false FTy.f64
+      (C01Slow.bytesOf "1121202011211211122211100012101120.000000000001") = "ok 4340000000000001 -" ∧
+    parseFloatAlgoModel slowModel { powerOfTwo := true, radix := true } ⟨0x0303030000000000000000000000000c⟩ {} false FTy.f64
+      (C01Slow.bytesOf "1121202011211211122211100012101120.000000000000") = "ok 4340000000000000 -" ∧
+    parseFloatAlgoModel slowModel { powerOfTwo := true, radix := true } ⟨0x0303030000000000000000000000000c⟩ {} false FTy.f64
+      (C01Slow.bytesOf "1121202011211211122211100012101112.222222222222") = "ok 4340000000000000 -" := by decide +kernel
 
 end LexVerif.Props.C05Syntax
